@@ -51,7 +51,15 @@ def gen(seed: int, tier: str, idx=None):
         cfg["twin_run"] = True
         return cfg, g.ops
     rows, cols = rng0.randint(1, 8), rng0.randint(1, 7)
-    g.emit({"op": "new_doc", "rows": rows, "cols": cols, "hr": min(rng0.choice([0, 1, 1, 2]), rows), "hc": min(rng0.choice([0, 1, 1]), cols)})
+    on_fixture = substream(seed, "geomfix").random() < 0.3
+    if on_fixture:
+        # the same edit histories on a loaded document: its tables have never had a caption (a stand-in object), carry
+        # sizes, strokes and header counts from the file, and nothing about them has been read yet
+        small = [k for k in TWIN_FIX if (_SURVEY[k].get("cells") or 0) <= 400]
+        g.emit({"op": "open_fixture", "name": small[(idx // 3) % len(small)] if idx is not None else rng0.choice(small)})
+        cfg["on_fixture"] = True
+    else:
+        g.emit({"op": "new_doc", "rows": rows, "cols": cols, "hr": min(rng0.choice([0, 1, 1, 2]), rows), "hc": min(rng0.choice([0, 1, 1]), cols)})
     steps = rng0.randint(4, 24 if tier == "thorough" else 16)
     weights = {"row_h": 6, "col_w": 6, "headers": 2, "caption": 3, "rename": 2, "add_table": 2, "border": 4, "observe": 5, "save": 3, "restart": 3, "write": 1}
     for k in ("border", "observe"):
@@ -71,6 +79,9 @@ def gen(seed: int, tier: str, idx=None):
         elif kind == "headers":
             g.emit({"op": "set_headers", "d": 0, "s": s, "t": t, "hr": rng.randint(0, 3), "hc": rng.randint(0, 3)})
         elif kind == "caption":
+            if rng.random() < 0.4:
+                # callers typically look before they change: the read may be remembered by the library
+                g.emit({"op": "observe", "d": 0, "s": s, "t": t, "kind": "labels", "scope": "table", "r": 0, "c": 0})
             o = {"op": "set_caption", "d": 0, "s": s, "t": t}
             r = rng.random()
             if r < 0.5:
@@ -81,6 +92,8 @@ def gen(seed: int, tier: str, idx=None):
                 o["name_enabled"] = rng.random() < 0.5
             if len(o) > 5:
                 g.emit(o)
+                if rng.random() < 0.4:
+                    g.emit({"op": "observe", "d": 0, "s": s, "t": t, "kind": "labels", "scope": "table", "r": 0, "c": 0})
         elif kind == "rename":
             if rng.random() < 0.5:
                 g.emit({"op": "rename_table", "d": 0, "s": s, "t": t, "name": rng.choice(NAME_POOL)})
@@ -96,7 +109,7 @@ def gen(seed: int, tier: str, idx=None):
             o["width"] = rng.choice([0.35, 1.0, 2.0, 3.0, 4.0, 6.0, 8.0])
             g.emit(o)
         elif kind == "observe":
-            g.emit({"op": "observe", "d": 0, "s": s, "t": t, "kind": rng.choice(["row_height", "col_width", "size", "border", "style"]),
+            g.emit({"op": "observe", "d": 0, "s": s, "t": t, "kind": rng.choice(["row_height", "col_width", "size", "border", "style", "labels", "labels"]),
                     "scope": rng.choice(["cell", "row", "table"]), "r": rng.randrange(20), "c": rng.randrange(20)})
         elif kind == "write":
             g.emit({"op": "write", "d": 0, "s": s, "t": t, "r": g.index(tm.nrows), "c": g.index(tm.ncols), "v": V.enc(g.value())})
